@@ -14,7 +14,9 @@ RULE = ("every height 0..33,600,000 enumerated (16 contiguous ranges; covers eve
         "two eras beyond), every era boundary k*1,050,000+{-1,0,1} up to 2^32 and around 64 halvings, powers of two up "
         "to 2^64, plus Hypothesis-drawn heights in [0,2^64]; oracle: subsidy_ref(h) = 10^9 >> (h // 1,050,000) "
         "(0 from 64 halvings), monotonicity against the previous height, total = 2,099,999,986,350,000 = MAX_SASHIMI = "
-        "documented 20,999,999.8635 coin, validator limit equals it. non-trivial = height with non-zero subsidy or an "
+        "documented 20,999,999.8635 coin, validator limit equals it; the reward bound of full validation on both sides of era "
+        "boundaries (fabricated bases); 4 threads querying around era boundaries concurrently for 3 s (stress, tiny switch "
+        "interval). non-trivial = height with non-zero subsidy or an "
         "era-boundary neighbour; heights are distinct by construction (ranges are disjoint).")
 ASSUMPTIONS = ["reference formula written from docs/params.md and the property statement",
                "python integers (no overflow)"]
@@ -34,6 +36,8 @@ def subsidy_ref(h):
 def shards(tier):
     out = [{"kind": "range", "lo": TOP * i // NR, "hi": TOP * (i + 1) // NR} for i in range(NR)]
     out.append({"kind": "boundaries"})
+    out.append({"kind": "concurrent"})
+    out.append({"kind": "validator"})
     return out
 
 
@@ -53,6 +57,12 @@ def run(shard, tier, seed):
     import skepticoin.params as P
     res = Result()
     f = C.get_block_subsidy
+    if shard["kind"] == "concurrent":
+        run_concurrent(res, tier, seed)
+        return res
+    if shard["kind"] == "validator":
+        run_validator(res, tier, seed)
+        return res
     if shard["kind"] == "range":
         lo, hi = shard["lo"], shard["hi"]
         total = 0
@@ -162,6 +172,81 @@ def run(shard, tier, seed):
     return res
 
 
+def run_concurrent(res, tier, seed):
+    """several threads ask for subsidies around era boundaries at the same time (validation and block assembly run in
+    different threads); every answer must equal the reference.  A stress search: interleavings are forced to be frequent
+    (tiny switch interval) but not enumerated."""
+    import sys
+    import threading
+    import time as _time
+    env.import_repo()
+    import skepticoin.consensus as C
+    f = C.get_block_subsidy
+    secs = 3.0 if tier == "quick" else 30.0
+    old = sys.getswitchinterval()
+    sys.setswitchinterval(1e-6)
+    bad = []
+    counts = [0] * 4
+    stop = _time.time() + secs
+
+    def worker(w):
+        hs = []
+        for k in (1, 2, 3, 29, 30, 31):
+            hs += [k * INTERVAL - 1, k * INTERVAL, k * INTERVAL - 1, (k - 1) * INTERVAL, k * INTERVAL + w]
+        n = 0
+        while _time.time() < stop and not bad:
+            for h in hs:
+                got = f(h)
+                n += 1
+                if got != subsidy_ref(h):
+                    bad.append((h, got))
+                    break
+        counts[w] = n
+
+    ts = [threading.Thread(target=worker, args=(w,)) for w in range(4)]
+    try:
+        for t in ts:
+            t.start()
+        for t in ts:
+            t.join()
+    finally:
+        sys.setswitchinterval(old)
+    res.evaluations += sum(counts)
+    res.count("concurrent_subsidy_queries", sum(counts))
+    res.disjoint += 2
+    if bad:
+        h, got = bad[0]
+        res.fail("subsidy_mismatch", "subsidy!=ref-under-concurrency", "get_block_subsidy(%d) returned %r (reference %d) while other threads were asking for other eras" % (h, got, subsidy_ref(h)), {"concurrent": h})
+    res.sample({"concurrent_threads": 4, "seconds": secs, "queries": sum(counts)})
+
+
+def run_validator(res, tier, seed):
+    """the validator applies the schedule on both sides of every era boundary: on a fabricated base at height k*1,050,000-1
+    a reward of exactly subsidy(h) is accepted, subsidy(h)+1 and the previous era's subsidy are refused"""
+    import random
+    from vf import chainexec, refmodel as R
+    eras = [1, 2, 3, 10, 29, 30, 31, 63, 64] if tier == "quick" else list(range(1, 33)) + [63, 64, 65]
+    for k in eras:
+        for below in (1, 2):
+            deep = {"H": INTERVAL * k - below, "tip_ts": 1_700_000_000, "target": (1 << 254).to_bytes(32, "big").hex(), "special": {}}
+            ops = [{"label": "a", "parent": "g", "miner": 1, "dt": 100, "txs": [], "reward": {"delta": 1}, "mut": "C02:reward+1"},
+                   {"label": "a", "parent": "g", "miner": 1, "dt": 100, "txs": [], "reward": {"delta": subsidy_ref(INTERVAL * k - below) - subsidy_ref(INTERVAL * k - below + 1)}, "mut": "C02:reward_of_previous_era"},
+                   {"label": "a", "parent": "g", "miner": 1, "dt": 100, "txs": []},
+                   {"label": "b", "parent": "a", "miner": 2, "dt": 100, "txs": [], "reward": {"delta": 1}, "mut": "C02:reward+1"},
+                   {"label": "b", "parent": "a", "miner": 2, "dt": 100, "txs": []}]
+            ops = [o for o in ops if not (o.get("mut") == "C02:reward_of_previous_era" and o["reward"]["delta"] == 0)]
+            case = {"cfg": [R.REAL_PERIOD, R.REAL_TIMESPAN], "ops": ops, "deep": deep}
+            r = chainexec.Run(case, ("C02",))
+            fails = r.execute()
+            res.evaluations += len(ops)
+            res.disjoint += len(ops)
+            for fl in fails:
+                res.fail(fl["kind"], "validator:" + fl["sig"], "era boundary %d: %s" % (k, fl["msg"]), {"validator_case": case})
+            if r.harness:
+                res.fail("validator", "validator:scheduled-reward-refused", "era boundary %d: a block claiming exactly the scheduled subsidy was refused: %s" % (k, r.harness[0]), {"validator_case": case})
+    res.sample({"validator_at_era_boundaries": eras})
+
+
 def finalize(m, tier):
     out = []
     if m["counters"].get("heights_enumerated") == TOP and not m["errors"]:
@@ -180,6 +265,14 @@ def replay(case):
     env.import_repo()
     import skepticoin.consensus as C
     res = Result()
+    if "concurrent" in case:
+        run_concurrent(res, "quick", 1)
+        return res.failures
+    if "validator_case" in case:
+        from vf import chainexec
+        r = chainexec.Run(case["validator_case"], ("C02",))
+        out = r.execute()
+        return [dict(f, sig="validator:" + f["sig"]) for f in out] + ([{"kind": "validator", "sig": "validator:scheduled-reward-refused", "msg": r.harness[0]}] if r.harness else [])
     if "height" in case:
         h = case["height"]
         _check(h, C.get_block_subsidy, res, C.get_block_subsidy(h - 1) if h > 0 else None)
